@@ -724,6 +724,8 @@ def refusal_cases(tier):
         names = [d[0] for d in c["dev"]]
         if any(n in ("friction", "method", "alpha", "numba") for n in names) and any(n.startswith("e") for n in names):
             out.append({"part": "e", "case": c})
+        elif len(names) == 2 and all(n.startswith("e") for n in names):
+            out.append({"part": "e", "case": c})     # every pair of parallel branch kinds (incl. over-determined ones)
     return out
 
 
@@ -733,7 +735,10 @@ def run_refusal(case):
     sp, opts = scopes.h_spec(c)
     vs = []
     statuses = []
-    for inner in ({"tolerance_colebrook": 1e-13, "max_iter_colebrook": 200}, {"max_iter_colebrook": 3}, {}):
+    inners = ({"tolerance_colebrook": 1e-13, "max_iter_colebrook": 200}, {"max_iter_colebrook": 3}, {})
+    if not any(d[0] in ("friction", "method", "alpha", "numba") for d in c["dev"]):
+        inners = ({},)    # pairs of branch kinds with default solver settings
+    for inner in inners:
         net, idmap = spec.build(sp)
         kw = dict(spec.TIGHT)
         kw.update(opts)
@@ -757,8 +762,8 @@ def run_refusal(case):
                 vs.append(viol("failed_but_results", "two-junction net %s: %s, but converged=%s or result tables hold numbers" % (
                     c["dev"], st, net.converged), exc=st))
         statuses.append(st)
-    return {"status": "ok", "violations": vs, "states": [core.jhash([c, i]) for i in range(3)], "transitions": 3, "traces": 3,
-            "nontrivial": "returned" in statuses, "sig": core.jhash([c["dev"], statuses]),
+    return {"status": "ok", "violations": vs, "states": [core.jhash([c, i]) for i in range(len(inners))],
+            "transitions": len(inners), "traces": len(inners), "nontrivial": "returned" in statuses, "sig": core.jhash([c["dev"], statuses]),
             "info": {"refusal_" + s_: statuses.count(s_) for s_ in set(statuses)}}
 
 
